@@ -717,7 +717,7 @@ class ConnectionChoiceNode(ChoiceNode):
     @staticmethod
     def get_sorted_connector_nodes(nodes):
         return sorted([node for node in nodes if isinstance(node, ConnectorNode)],
-                      key=lambda n: (str(n.option_id or ''), str(n.decision_id or '')))
+                      key=lambda n: (str(n.option_id or ''), str(n.decision_id or ''), str(getattr(n, 'name', ''))))
 
     def get_excluded_edges(self, graph):
         excluded = []
